@@ -99,8 +99,15 @@ func encodingsOf(s crypto.Signer, ca *gen.CA) []encoding {
 	return out
 }
 
+// valid key material of ANOTHER key, appended as trailing data (set by runC19)
+var c19OtherPub, c19OtherCert string
+
 func decorate(r int, p string) (string, string) {
-	switch r % 5 {
+	switch r % 7 {
+	case 5:
+		return "trailing PEM block with another public key", p + c19OtherPub
+	case 6:
+		return "trailing PEM block with another key's certificate", p + c19OtherCert
 	case 1:
 		return "leading+trailing whitespace", "\n  \n" + p + "\n\n \t\n"
 	case 2:
@@ -174,6 +181,11 @@ var loaderNames = []string{"LoadKeyDefaults", "LoadKeyReaderDefaults", "LoadKey"
 
 func runC19(c *core.Ctx) {
 	ca, _ := gen.NewCA(gen.CertSpec{CN: "c19-root"}, nil)
+	if ca != nil {
+		// the CA's own certificate and the public key of a pool key serve as "another key" in trailing data
+		c19OtherCert = ca.PEM
+	}
+	c19OtherPub = gen.Fast(Pool(c))[0].PubPEM
 	type spec struct {
 		kind string
 		n    int
@@ -212,7 +224,7 @@ func runC19(c *core.Ctx) {
 			var privKey, pubKey *intoto.Key
 			for ei, enc := range encs {
 				for loader := 0; loader < 4; loader++ {
-					for deco := 0; deco < 5; deco++ {
+					for deco := 0; deco < 7; deco++ {
 						if c.Quick() && (loader+deco+ei)%3 != 0 && deco != 0 {
 							continue
 						}
@@ -554,7 +566,7 @@ func init() {
 	core.Register(&core.Property{
 		ID:    "C19",
 		Level: "exploration",
-		Rule: "freshly generated keys per run (quick: 2 RSA-2048, ECDSA P-224/256x2/384/521, 3 Ed25519; thorough: more, plus RSA-3072) x every PEM encoding each supports (PKCS#8, PKCS#1, SEC1, PKIX, self-signed and CA-issued certificate) x 4 loaders (the reader-based ones fed whole, byte by byte, in halves and in 100-byte pieces) x 5 decorations (plain, surrounding whitespace, CRLF, trailing PEM block, trailing text): type, default scheme, public-half string, key id (recomputed independently as SHA-256 of the reference canonical description), presence of private half / certificate, equal ids across the forms of one pair and different ids for different keys; sign with the private-loaded key, verify with public/certificate-loaded keys and with crypto/*; public-only keys must not sign; explicit scheme and hash lists (matching => reflected in id; scheme of another key type => error); re-use of one Key object for two loads must equal a fresh load; before every load an earlier default-loaded key object is modified in place by its owner (later loads must not notice); SVIDDetails.InTotoKey on generated SVID-like pairs (helper built inside the repository module through a build overlay); negatives (empty, text, truncated DER/base64, random DER under 5 labels, encrypted PKCS#8 label, CSR, DSA-like, EC PARAMETERS block without a key, binary) through all loaders. " +
+		Rule: "freshly generated keys per run (quick: 2 RSA-2048, ECDSA P-224/256x2/384/521, 3 Ed25519; thorough: more, plus RSA-3072) x every PEM encoding each supports (PKCS#8, PKCS#1, SEC1, PKIX, self-signed and CA-issued certificate) x 4 loaders (the reader-based ones fed whole, byte by byte, in halves and in 100-byte pieces) x 7 decorations (plain, surrounding whitespace, CRLF, trailing garbage PEM block, trailing text, trailing PEM block with another valid public key / another key's certificate: the first block is the key): type, default scheme, public-half string, key id (recomputed independently as SHA-256 of the reference canonical description), presence of private half / certificate, equal ids across the forms of one pair and different ids for different keys; sign with the private-loaded key, verify with public/certificate-loaded keys and with crypto/*; public-only keys must not sign; explicit scheme and hash lists (matching => reflected in id; scheme of another key type => error); re-use of one Key object for two loads must equal a fresh load; before every load an earlier default-loaded key object is modified in place by its owner (later loads must not notice); SVIDDetails.InTotoKey on generated SVID-like pairs (helper built inside the repository module through a build overlay); negatives (empty, text, truncated DER/base64, random DER under 5 labels, encrypted PKCS#8 label, CSR, DSA-like, EC PARAMETERS block without a key, binary) through all loaders. " +
 			"non-trivial = a supported encoding parsed or a distinct negative class; distinct = (key kind, encoding, loader, decoration) etc.",
 		Assumptions: []string{"keys come from crypto/rand, so they differ per run; every input of a violation is saved in the replay file", "PEM input with trailing data after the first block may be accepted or refused (not judged), but never yields a wrong key", "PEM labels that contradict the DER content are not judged"},
 		Workers:     func(string) int { return 16 },
